@@ -321,7 +321,12 @@ def confirm_case(pid, v):
         if r.returncode != 0: return {'status': 'replay_error', 'detail': r.stderr[-500:], 'path': path}
         out = json.loads(r.stdout.strip().splitlines()[-1])
         pred = json.loads(json.dumps(v['predicted']))
-        diffs = [k for k in pred if out.get(k) != pred[k]]
+        unpred = [k for k in pred if isinstance(pred[k], dict) and pred[k].get('formatted')]
+        diffs = [k for k in pred if k not in unpred and out.get(k) != pred[k]]
+        # fields whose predicted text comes out of format!(): the real output must itself deviate from what the Config sets
+        same = [k for k in unpred if out.get(k) == case['config'].get(k)]
+        if unpred and same:
+            return {'status': 'not_reproduced', 'detail': f'native output has the configured value in {same}', 'path': path}
         if diffs:
             return {'status': 'not_reproduced', 'detail': f'native output differs from the prediction in {diffs}: native {[out.get(k) for k in diffs]} predicted {[pred[k] for k in diffs]}', 'path': path}
         return {'status': 'confirmed', 'path': path, 'known': v.get('known')}
